@@ -177,6 +177,172 @@ func (g *cgraph) definePhi(ph *ssa.Phi, key string, depth int) {
 			return true
 		})
 	}
+	if down {
+		g.reverseScanBound(ph, key)
+		g.guardedLowerBound(ph, key)
+	}
+}
+
+// guardedLowerBound: a counter that goes down by exactly one per trip, whose every back edge comes
+// from a block dominated by the true edge of `counter > c` (c a constant), stays ≥ c at the header
+// and after the loop, provided its initial values are ≥ c.
+func (g *cgraph) guardedLowerBound(ph *ssa.Phi, key string) {
+	a := g.a
+	hdr := ph.Block()
+	var bound int64
+	first := true
+	var inits []ssa.Value
+	for i, e := range ph.Edges {
+		pred := hdr.Preds[i]
+		base, k := linear(e)
+		if base != ssa.Value(ph) {
+			inits = append(inits, e)
+			continue
+		}
+		if k != -1 || !hdr.Dominates(pred) {
+			return
+		}
+		found := false
+		for x := pred; x != nil && x != hdr.Idom(); x = x.Idom() {
+			d := x.Idom()
+			if d == nil || len(x.Preds) != 1 || x.Preds[0] != d || !hdr.Dominates(d) {
+				continue
+			}
+			iff, ok := d.Instrs[len(d.Instrs)-1].(*ssa.If)
+			if !ok || d.Succs[0] != x {
+				continue
+			}
+			bo, ok := iff.Cond.(*ssa.BinOp)
+			if !ok || bo.X != ssa.Value(ph) {
+				continue
+			}
+			c, ok := constInt(bo.Y)
+			if !ok {
+				continue
+			}
+			switch bo.Op {
+			case token.GTR:
+			case token.GEQ:
+				c--
+			case token.NEQ:
+				// counter != c with a counter that starts ≥ c and goes down by one: it cannot jump over c
+			default:
+				continue
+			}
+			if first {
+				bound, first = c, false
+				found = true
+			} else if bound == c {
+				found = true
+			}
+			if found {
+				break
+			}
+		}
+		if !found {
+			return
+		}
+	}
+	if first || len(inits) == 0 {
+		return
+	}
+	for _, in := range inits {
+		t, k, ok := a.intTerm(in)
+		if !ok {
+			return
+		}
+		g.define(in, 3)
+		if !g.proveLE(zeroTerm, bound, t, k) {
+			return
+		}
+	}
+	g.le(zeroTerm, key, -bound)
+}
+
+// reverseScanBound: the reverse scan that cuts what it scans.
+//
+//	for i := len(S) - 1; …; i-- { … S[i] … ; S = S[:i] (on some paths) }
+//
+// i is a header phi with initial value len(S0) − 1 and back-edge value i − 1 on every back edge; S is
+// a slice phi of the same header with initial value S0 whose back-edge values are S itself or S[:i]
+// (possibly merged by phis inside the body).  Then i ≤ len(S) − 1 at the header and in the body:
+// it holds on entry; a trip that keeps S lowers i; a trip that cuts S to S[:i] leaves len = i and
+// the next i is i − 1.
+func (g *cgraph) reverseScanBound(ph *ssa.Phi, key string) {
+	a := g.a
+	hdr := ph.Block()
+	var init ssa.Value
+	for i, e := range ph.Edges {
+		if hdr.Dominates(hdr.Preds[i]) {
+			if base, k := linear(e); base != ssa.Value(ph) || k != -1 {
+				return
+			}
+			continue
+		}
+		if init != nil {
+			return
+		}
+		init = e
+	}
+	if init == nil {
+		return
+	}
+	base, k := linear(init)
+	lc, ok := base.(*ssa.Call)
+	if !ok || k != -1 {
+		return
+	}
+	if bi, ok := lc.Call.Value.(*ssa.Builtin); !ok || bi.Name() != "len" {
+		return
+	}
+	s0 := lc.Call.Args[0]
+	for _, ins := range hdr.Instrs {
+		sp, ok := ins.(*ssa.Phi)
+		if !ok {
+			break
+		}
+		if _, isSlice := sp.Type().Underlying().(*types.Slice); !isSlice {
+			continue
+		}
+		good := true
+		for i, e := range sp.Edges {
+			if !hdr.Dominates(hdr.Preds[i]) {
+				if e != s0 {
+					good = false
+				}
+				continue
+			}
+			if !keptOrCutAt(e, sp, ph, map[ssa.Value]bool{}) {
+				good = false
+			}
+		}
+		if good {
+			g.le(key, "len("+a.regKey(sp)+")", -1)
+		}
+	}
+}
+
+// keptOrCutAt: v is S, or S[:i], or a phi of such values.
+func keptOrCutAt(v ssa.Value, s, i *ssa.Phi, seen map[ssa.Value]bool) bool {
+	if v == ssa.Value(s) {
+		return true
+	}
+	if seen[v] {
+		return true
+	}
+	seen[v] = true
+	switch x := v.(type) {
+	case *ssa.Slice:
+		return x.X == ssa.Value(s) && x.Low == nil && x.High == ssa.Value(i) && x.Max == nil
+	case *ssa.Phi:
+		for _, e := range x.Edges {
+			if !keptOrCutAt(e, s, i, seen) {
+				return false
+			}
+		}
+		return true
+	}
+	return false
 }
 
 // guardedUpperBound: a counter that goes up by exactly one per trip, and whose every back edge comes
